@@ -66,6 +66,15 @@ def isOk {ε α} : Outcome ε α → Bool
   | _ => false
 end Outcome
 
+/-- `bind`-inversion -/
+theorem bind_ok {ε α β : Type} (x : Outcome ε α) (f : α → Outcome ε β) (b : β)
+    (h : x.bind f = .ok b) : ∃ a, x = .ok a ∧ f a = .ok b := by
+  cases x with
+  | ok a => exact ⟨a, rfl, h⟩
+  | err e => simp [Outcome.bind] at h
+  | panic p => simp [Outcome.bind] at h
+
+
 abbrev Dec := Outcome DecErr
 abbrev Enc := Outcome EncErr
 
